@@ -179,23 +179,44 @@ func decodeVirtualService(vs *unstructured.Unstructured, stableSvc, canarySvc st
 
 type trafficOracle struct {
 	baseOracle
-	sc                *Scenario
-	stableSvc         string
-	canarySvc         string
-	orig              map[ObjKey]client.Object // user-owned network objects before the rollout (updated by user edits)
-	claimed           bool                     // a BatchRelease has claimed the workload (control annotation) at some point
-	netWriteAt        time.Time
-	netWriteGen       int
-	netWriteWhat      string
-	pinnedThroughFull bool // the stable Service was never un-pinned before that step started
-	fullStep          bool // a step covering every replica was executed (stable pods legitimately all replaced)
-	resetBR           bool // a continuous-release reset is in progress (gateway must be restored before capacity is released)
+	sc                     *Scenario
+	stableSvc              string
+	canarySvc              string
+	orig                   map[ObjKey]client.Object // user-owned network objects before the rollout (updated by user edits)
+	claimed                bool                     // a BatchRelease has claimed the workload (control annotation) at some point
+	brDeletedWithPartition bool
+	netWriteAt             time.Time
+	netWriteGen            int
+	netWriteWhat           string
+	pinnedThroughFull      bool // the stable Service was never un-pinned before that step started
+	fullStep               bool // a step covering every replica was executed (stable pods legitimately all replaced)
+	resetBR                bool // a continuous-release reset is in progress (gateway must be restored before capacity is released)
 }
 
 func (o *trafficOracle) Name() string { return "traffic" }
 
 func newTrafficOracle(sc *Scenario) *trafficOracle {
 	return &trafficOracle{sc: sc, stableSvc: sc.Name + "-svc", canarySvc: sc.Name + "-svc-canary", orig: map[ObjKey]client.Object{}}
+}
+
+// staleRouteRead: the reconcile that reports a step routed verified the gateway object in a cache that did not yet hold the
+// latest version of it (typically the controller's own previous write).  Tag for T2 / H1 signatures.
+func (o *trafficOracle) staleRouteRead(s *Sim) string {
+	t := s.cur
+	if t == nil {
+		return ""
+	}
+	for _, k := range o.gatewayKeys() {
+		cur := s.Store.Peek(k)
+		rr, ok := t.LastRead[k]
+		if !ok || cur == nil {
+			continue
+		}
+		if !rr.Found || rr.Obj.(client.Object).GetResourceVersion() != cur.GetResourceVersion() {
+			return "/stale-route-read"
+		}
+	}
+	return ""
 }
 
 func (o *trafficOracle) gatewayKeys() []ObjKey {
@@ -288,6 +309,16 @@ func (o *trafficOracle) rollout(s *Sim) *v1beta1.Rollout {
 func (o *trafficOracle) OnWrite(s *Sim, w *Write) {
 	if !o.sc.owns(w.Key) && w.Key.GK != gkConfigMap {
 		return
+	}
+	// exit fact: the last BatchRelease was deleted while its batchPartition was still set (its Finalize then keeps the
+	// workload frozen by design; nobody is left to resume it)
+	if w.Key.GK == gkBR {
+		switch {
+		case w.Verb == "create":
+			o.brDeletedWithPartition = false
+		case w.Verb == "delete" && w.Old != nil:
+			o.brDeletedWithPartition = w.Old.(*v1beta1.BatchRelease).Spec.ReleasePlan.BatchPartition != nil
+		}
 	}
 	if o.sc.Traffic == "" || o.sc.Traffic == "none" {
 		return
@@ -405,7 +436,7 @@ func (o *trafficOracle) checkLeaveTrafficRouting(s *Sim, w *Write) {
 	fam := o.sc.Family + "/" + o.sc.Traffic
 	cur := o.current(s)
 	if cur.Share != ws || cur.Match != wm {
-		s.Violate("C03", "T2-exact", "T2/"+valueNature(cur, ws, wm)+"/"+fam, w.Seq, "step %d reported routed but the gateway sends share=%d match=%v to the canary; the step configures share=%d match=%v", k, cur.Share, cur.Match, ws, wm)
+		s.Violate("C03", "T2-exact", "T2/"+valueNature(cur, ws, wm)+"/"+fam+o.staleRouteRead(s), w.Seq, "step %d reported routed but the gateway sends share=%d match=%v to the canary; the step configures share=%d match=%v", k, cur.Share, cur.Match, ws, wm)
 	}
 	if rd.Spec.Strategy.DisableGenerateCanaryService() {
 		return
@@ -662,6 +693,9 @@ func (o *trafficOracle) OnEnd(s *Sim) {
 			// the rollback raced with the completion of the last step: the release was finalised as a success
 			fam += "/finalised-as-success"
 		}
+	}
+	if o.brDeletedWithPartition && !o.sc.user.ExitNoBR && !o.sc.user.ExitUnclaimed {
+		fam += "/batchrelease-deleted-with-partition"
 	}
 	if o.sc.user.ExitNoBR {
 		fam += "/no-batchrelease-at-exit"
